@@ -35,8 +35,16 @@ def run_e1(ctx, rep, roots_fn, rule="E1", configs=None, min_roots=1, min_sites=1
             seen[key] = "classified"
             path = E.cg.path_to(parent, s.fn.key)
             chain = " -> ".join(k for (k, _, _) in path[:1] + path[-3:]) if len(path) > 4 else " -> ".join(k for (k, _, _) in path)
+            shift = ""
+            if key not in reviewed:
+                grp = key.rsplit("#", 1)[0] + "#"
+                nrev = sum(1 for k_ in reviewed if k_.startswith(grp))
+                if nrev:
+                    shift = (" | NOTE: %d reviewed site(s) of the same kind exist in this function; keys are ordinal within the "
+                             "function, so a site inserted before them has SHIFTED their ordinals - re-read every `%s..` entry of "
+                             "reviewed/panics.tsv against the code, not only this one" % (nrev, grp.split(" | ", 1)[1]))
             rep.classify(rule, key, reviewed, loc=s.loc(),
-                         detail="%s | config %s | reachable from root via %s" % (s.src, cfg, chain))
+                         detail="%s | config %s | reachable from root via %s%s" % (s.src, cfg, chain, shift))
         rep.analysed.setdefault(cfg, {}).update({
             "bodies": len(E.prog.fns), "call_edges": sum(E.cg.stats.values()),
             rule + "_roots": len(roots), rule + "_reachable_fns": len(parent), rule + "_sites": len(sites)})
